@@ -131,7 +131,7 @@ def r191(ctx):
                 for L in loops_of(c):
                     if isinstance(L, ast.For) and c.args[0].id in {x.id for x in ast.walk(L.target) if isinstance(x, ast.Name)}:
                         ok = True
-        pre = any(isinstance(n, ast.Assign) and isinstance(n.value, ast.Subscript) and isinstance(n.value.slice, ast.Slice) and n.value.slice.lower is None and isinstance(n.value.slice.upper, ast.Name) and n.value.slice.upper.id == pname for n in walk_local(rd))
+        pre = any(isinstance(n, ast.Subscript) and isinstance(n.slice, ast.Slice) and n.slice.lower is None and isinstance(n.slice.upper, ast.Name) and n.slice.upper.id == pname for n in walk_local(rd))
         if ok and pre:
             ctx.ok(rid, wr, f"g96: the writer's text prefix is the reader's line[:_pos] (= {_pos} characters), the first float slice starts at {_pos}")
         else:
@@ -146,7 +146,14 @@ def r191(ctx):
     wcfg = cfg_of(wr)
     use = {}
     for nm in [x for x in walk_local(wr) if isinstance(x, ast.Name) and x.id in ("_G96_BOX_FMT_3", "_G96_BOX_FMT")]:
-        for e, t, bn in wcfg.guards(wcfg.node_of(nm)):
+        facts_ = [(e, t) for e, t, bn in wcfg.guards(wcfg.node_of(nm))]
+        # a conditional expression selects like an if statement
+        par_, child_ = getattr(nm, "_parent", None), nm
+        while par_ is not None and not isinstance(par_, ast.stmt):
+            if isinstance(par_, ast.IfExp) and child_ is not par_.test:
+                facts_.append((par_.test, child_ is par_.body))
+            par_, child_ = getattr(par_, "_parent", None), par_
+        for e, t in facts_:
             o = oriented(e, lambda x: isinstance(x, ast.Call) and last_name(x) == "len")
             if o is not None and isinstance(o[2], ast.Constant) and o[2].value == 3 and isinstance(o[1], (ast.Eq, ast.NotEq)):
                 is3 = t if isinstance(o[1], ast.Eq) else (not t)
